@@ -39,6 +39,16 @@ def classify_datagram(data):
     return "other"
 
 
+def gen_turn(ch, nodes, stream="cfg", chance=0.12):
+    """Seeded TURN-like configuration for IceFabric.turn (None in most runs)."""
+    if not ch.chance(stream, chance):
+        return None
+    # (kept light: a relay that stalls every third send for 200 ms cannot carry media at all - the receive loop
+    # then falls behind without bound, which is overload, not a fault the properties talk about)
+    return {"node": ch.choice(stream, list(nodes) + ["*"]), "nth": ch.choice(stream, [7, 20, 50, 200]),
+            "dur": ch.choice(stream, [0.0, 0.01, 0.05])}
+
+
 class IceFabric:
     """One per world: creates connections, pairs them, owns the links."""
 
@@ -57,6 +67,10 @@ class IceFabric:
         self.check_timeout = 30.0
         self.consent_timeout = 30.0
         self.send_yields = False        # buggify: transport send suspends once (TURN path)
+        # buggify: like a TURN relay, every nth send of one node's connections suspends for `dur` seconds (aioice's
+        # TurnClientMixin.send_data awaits a channel bind / refresh); {"node": "A", "nth": 7, "dur": 0.05} or None
+        self.turn = None
+        self.turn_suspensions = 0
         self.heal_at = None
         self.classify = classify_datagram
         self.serial = 0
@@ -268,6 +282,14 @@ class SimIceConnection:
             await asyncio.sleep(0)
             if not self._nominated:
                 raise ConnectionError("Cannot send data, not connected")
+        turn = self.fabric.turn
+        if turn is not None and turn["node"] in (self.node, "*"):
+            self._sends = getattr(self, "_sends", 0) + 1
+            if self._sends % turn["nth"] == 0:
+                self.fabric.turn_suspensions += 1
+                await asyncio.sleep(turn["dur"])
+                if not self._nominated:
+                    raise ConnectionError("Cannot send data, not connected")
         if self.vanished:
             return
         self.link_out.send(bytes(data))
